@@ -397,10 +397,9 @@ func (sr *srvRun) observe() string {
 	sr.doneCh = nil
 	sr.mu.Unlock()
 	sort.Strings(dn)
-	sr.traceMu.Lock()
-	size := sr.lastSize
-	sr.traceMu.Unlock()
-	return fmt.Sprintf("calls=[%s] done=[%s] size=%d", strings.Join(calls, ","), strings.Join(dn, ","), size)
+	// the reported cache size is judged by the oracle (it must stay below the limit); how many bytes an entry is accounted at is
+	// not fixed by the property, so the exact figure is not part of the observable compared with the model
+	return fmt.Sprintf("calls=[%s] done=[%s]", strings.Join(calls, ","), strings.Join(dn, ","))
 }
 
 func (sr *srvRun) install(v *srvVersion) {
